@@ -220,6 +220,64 @@ theorem size_declared_iff_plain (b : Bytes) (parts : List Appended)
         | none => simp [hs] at h2
         | some m => simp
 
+/-! ## file-like parts: every write replays the same bytes -/
+
+/-- the start position is either not yet recorded (and the file still stands there) or recorded as `k` -/
+def IOPayload.Anchored (p : IOPayload) (k : Nat) : Prop :=
+  (p.start = none ∧ p.pos = k) ∨ p.start = some k
+
+theorem IOPayload.size_anchored (p : IOPayload) (k : Nat) (h : p.Anchored k)
+    (hf : p.fixedSize = none ∨ p.fixedSize = some (p.buf.length - k)) :
+    p.size.1 = p.buf.length - k ∧ p.size.2.Anchored k ∧ p.size.2.buf = p.buf ∧ p.size.2.fixedSize = p.fixedSize := by
+  unfold IOPayload.size
+  rcases hf with hf | hf
+  · rw [hf]
+    rcases h with ⟨hs, hp⟩ | hs
+    · simp [hs, hp, IOPayload.Anchored, hf]
+    · simp [hs, IOPayload.Anchored, hf]
+  · rw [hf]; exact ⟨rfl, h, rfl, hf⟩
+
+theorem IOPayload.write_anchored (p : IOPayload) (k : Nat) (h : p.Anchored k) :
+    p.write.1 = p.buf.drop k ∧ p.write.2.Anchored k ∧ p.write.2.buf = p.buf ∧ p.write.2.fixedSize = p.fixedSize := by
+  unfold IOPayload.write IOPayload.setOrRestore
+  rcases h with ⟨hs, hp⟩ | hs
+  · simp [hs, hp, IOPayload.Anchored]
+  · simp [hs, IOPayload.Anchored]
+
+/-- **A file-like part is written identically every time, and its size is truthful.** For a payload
+built from a file-like object positioned at `k` (a file or a `BytesIO`), whatever sequence of
+size queries and writes follows (first write, retry, redirect, size asked before or after):
+every write emits exactly the bytes from position `k` to the end, and every size query answers
+exactly their number. (Restoring to any position other than the recorded one breaks this.) -/
+theorem io_payload_replays (buf : Bytes) (k : Nat) (bytesIO : Bool) (ops : List IOOp) :
+    ∀ o ∈ (IOPayload.create buf k bytesIO).run ops,
+      o = .size (buf.length - k) ∨ o = .data (buf.drop k) := by
+  have key : ∀ (ops : List IOOp) (p : IOPayload), p.Anchored k → p.buf = buf →
+      (p.fixedSize = none ∨ p.fixedSize = some (buf.length - k)) →
+      ∀ o ∈ p.run ops, o = .size (buf.length - k) ∨ o = .data (buf.drop k) := by
+    intro ops
+    induction ops with
+    | nil => intro p _ _ _ o ho; simp [IOPayload.run] at ho
+    | cons op ops ih =>
+      intro p ha hb hf o ho
+      cases op with
+      | size =>
+        obtain ⟨h1, h2, h3, h4⟩ := p.size_anchored k ha (by rw [hb]; exact hf)
+        simp only [IOPayload.run, List.mem_cons] at ho
+        rcases ho with rfl | ho
+        · left; rw [h1, hb]
+        · exact ih _ h2 (by rw [h3, hb]) (by rw [h4]; exact hf) o ho
+      | write =>
+        obtain ⟨h1, h2, h3, h4⟩ := p.write_anchored k ha
+        simp only [IOPayload.run, List.mem_cons] at ho
+        rcases ho with rfl | ho
+        · right; rw [h1, hb]
+        · exact ih _ h2 (by rw [h3, hb]) (by rw [h4]; exact hf) o ho
+  apply key ops
+  · left; simp [IOPayload.create]
+  · simp [IOPayload.create]
+  · cases bytesIO <;> simp [IOPayload.create]
+
 /-! ## termination -/
 
 /-- streams whose pending segments are all non-empty (the transport never delivers `b""`) -/
